@@ -1,0 +1,221 @@
+//go:build verif
+
+// Contracts for the commit package, checked by /verif/govc. Every function here is a specification:
+// a lemma (harness over fully symbolic inputs calling the real functions), a contract wrapper
+// (requires / one call of the real target / ensures), or a loop contract. Nothing here is compiled
+// without the `verif` tag.
+package commit
+
+import "math"
+
+//@ inline binary.
+//@ unroll commit.(*Buffer).writeOffset#0 5
+
+// vMkBuffer builds a buffer in an arbitrary state from plain inputs.
+func vMkBuffer(buf []byte, hdrs []header, last int32, chunk Chunk) *Buffer {
+	return &Buffer{buffer: buf, chunks: hdrs, last: last, chunk: chunk}
+}
+
+// vRoundtrip is the shape shared by all round-trip lemmas (C05 a): for every buffer state, every operation kind
+// that fits the 4-bit field, every offset below 2^31 and every run start s, a reader that has consumed the
+// run [s, oldLen) and carries the previous offset decodes exactly the operation `write` appended: same kind, same
+// offset, a value window of `size` bytes that `check` accepts, and it ends exactly at the new end of the buffer.
+func vRoundtrip(buf []byte, hdrs []header, last int32, chunk Chunk, opIn OpType, idx uint32, s int, size int,
+	write func(b *Buffer, op OpType), check func(r *Reader) bool) {
+	op := opIn & 0x0f
+	vAssume(idx < 1<<31 && last >= 0)
+	vAssume(0 <= s && s <= len(buf))
+	b := vMkBuffer(buf, hdrs, last, chunk)
+	oldLen := len(buf)
+	write(b, op)
+	r := &Reader{buffer: b.buffer[s:], last: oldLen - s, Offset: last}
+	ok := r.Next()
+	vAssert("next", ok)
+	vAssert("type", r.Type == op)
+	vAssert("offset", r.Offset == int32(idx) && r.Index() == idx)
+	vAssert("window", r.i1-r.i0 == size && r.i0 > oldLen-s && r.i1 <= len(r.buffer))
+	vAssert("value", check(r))
+	vAssert("consumed", r.last == len(r.buffer))
+	vAssert("at-end", !r.Next())
+}
+
+//@ lemma props=C05,C01
+func vLemmaRoundtripUint16(buf []byte, hdrs []header, last int32, chunk Chunk, op OpType, idx uint32, s int, v uint16) {
+	vRoundtrip(buf, hdrs, last, chunk, op, idx, s, 2,
+		func(b *Buffer, op OpType) { b.writeUint16(op, idx, v) },
+		func(r *Reader) bool { return r.Uint16() == v && r.Int16() == int16(v) && r.Uint() == uint(v) })
+}
+
+//@ lemma props=C05,C01
+func vLemmaRoundtripUint32(buf []byte, hdrs []header, last int32, chunk Chunk, op OpType, idx uint32, s int, v uint32) {
+	vRoundtrip(buf, hdrs, last, chunk, op, idx, s, 4,
+		func(b *Buffer, op OpType) { b.writeUint32(op, idx, v) },
+		func(r *Reader) bool {
+			return r.Uint32() == v && r.Int32() == int32(v) && math.Float32bits(r.Float32()) == v && r.Uint() == uint(v)
+		})
+}
+
+//@ lemma props=C05,C01
+func vLemmaRoundtripUint64(buf []byte, hdrs []header, last int32, chunk Chunk, op OpType, idx uint32, s int, v uint64) {
+	vRoundtrip(buf, hdrs, last, chunk, op, idx, s, 8,
+		func(b *Buffer, op OpType) { b.writeUint64(op, idx, v) },
+		func(r *Reader) bool {
+			return r.Uint64() == v && r.Int64() == int64(v) && math.Float64bits(r.Float64()) == v &&
+				math.Float64bits(r.Number()) == v && r.Uint() == uint(v) && r.Int() == int(v)
+		})
+}
+
+//@ lemma props=C05,C01,C11
+func vLemmaRoundtripOperation(buf []byte, hdrs []header, last int32, chunk Chunk, op OpType, idx uint32, s int) {
+	vRoundtrip(buf, hdrs, last, chunk, op, idx, s, 0,
+		func(b *Buffer, op OpType) { b.PutOperation(op, idx) },
+		func(r *Reader) bool { return true })
+}
+
+//@ lemma props=C05,C01
+func vLemmaRoundtripBool(buf []byte, hdrs []header, last int32, chunk Chunk, idx uint32, s int, v bool) {
+	vAssume(idx < 1<<31 && last >= 0 && 0 <= s && s <= len(buf))
+	b := vMkBuffer(buf, hdrs, last, chunk)
+	oldLen := len(buf)
+	b.PutBool(idx, v)
+	r := &Reader{buffer: b.buffer[s:], last: oldLen - s, Offset: last}
+	vAssert("next", r.Next())
+	vAssert("value", r.Bool() == v && (r.Type == PutTrue) == v && (r.Type == PutFalse) == !v)
+	vAssert("offset", r.Offset == int32(idx))
+	vAssert("consumed", r.last == len(r.buffer))
+}
+
+//@ lemma props=C05,C01,C12
+func vLemmaRoundtripBytes(buf []byte, hdrs []header, last int32, chunk Chunk, op OpType, idx uint32, s int, v0 []byte, n uint16) {
+	vAssume(int(n) <= len(v0) && vSeparate(buf, v0))
+	v := v0[:n] // any value of up to 65535 bytes (the length field has two bytes) that is not part of the buffer itself
+	oldLen := len(buf)
+	vRoundtrip(buf, hdrs, last, chunk, op, idx, s, len(v),
+		func(b *Buffer, op OpType) { b.PutBytes(op, idx, v) },
+		func(r *Reader) bool {
+			return r.headString == oldLen-s && len(r.Bytes()) == len(v) && len(r.String()) == len(v) &&
+				vForall(0, len(v), func(i int) bool { return r.Bytes()[i] == v[i] && r.String()[i] == v[i] })
+		})
+}
+
+//@ lemma props=C05,C01,C12
+func vLemmaRoundtripString(buf []byte, hdrs []header, last int32, chunk Chunk, op OpType, idx uint32, s int, v0 string, n uint16) {
+	vAssume(int(n) <= len(v0) && vSeparate(buf, toBytes(v0)))
+	v := v0[:n]
+	vRoundtrip(buf, hdrs, last, chunk, op, idx, s, len(v),
+		func(b *Buffer, op OpType) { b.PutString(op, idx, v) },
+		func(r *Reader) bool {
+			return len(r.String()) == len(v) && vForall(0, len(v), func(i int) bool { return r.String()[i] == v[i] })
+		})
+}
+
+// The typed wrappers forward to the right width and the typed getters invert them bit for bit.
+//
+//@ lemma props=C05,C01
+func vLemmaTypedWrappers(buf []byte, hdrs []header, last int32, chunk Chunk, opIn OpType, idx uint32, sel uint8,
+	u64 uint64, u32 uint32, u16 uint16) {
+	op := opIn & 0x0f
+	vAssume(idx < 1<<31 && last >= 0)
+	b := vMkBuffer(buf, hdrs, last, chunk)
+	oldLen := len(buf)
+	r := &Reader{last: oldLen, Offset: last}
+	switch sel {
+	case 0:
+		b.PutUint64(op, idx, u64)
+		r.buffer = b.buffer
+		vAssert("uint64", r.Next() && r.Uint64() == u64)
+	case 1:
+		b.PutUint32(op, idx, u32)
+		r.buffer = b.buffer
+		vAssert("uint32", r.Next() && r.Uint32() == u32)
+	case 2:
+		b.PutUint16(op, idx, u16)
+		r.buffer = b.buffer
+		vAssert("uint16", r.Next() && r.Uint16() == u16)
+	case 3:
+		b.PutUint(op, idx, uint(u64))
+		r.buffer = b.buffer
+		vAssert("uint", r.Next() && r.Uint() == uint(u64))
+	case 4:
+		b.PutInt64(op, idx, int64(u64))
+		r.buffer = b.buffer
+		vAssert("int64", r.Next() && r.Int64() == int64(u64))
+	case 5:
+		b.PutInt32(op, idx, int32(u32))
+		r.buffer = b.buffer
+		vAssert("int32", r.Next() && r.Int32() == int32(u32))
+	case 6:
+		b.PutInt16(op, idx, int16(u16))
+		r.buffer = b.buffer
+		vAssert("int16", r.Next() && r.Int16() == int16(u16))
+	case 7:
+		b.PutInt(op, idx, int(u64))
+		r.buffer = b.buffer
+		vAssert("int", r.Next() && r.Int() == int(u64))
+	case 8:
+		b.PutFloat64(op, idx, math.Float64frombits(u64))
+		r.buffer = b.buffer
+		vAssert("float64", r.Next() && math.Float64bits(r.Float64()) == u64)
+	case 9:
+		b.PutFloat32(op, idx, math.Float32frombits(u32))
+		r.buffer = b.buffer
+		vAssert("float32", r.Next() && math.Float32bits(r.Float32()) == u32)
+	case 10:
+		b.PutNumber(op, idx, math.Float64frombits(u64))
+		r.buffer = b.buffer
+		vAssert("number", r.Next() && math.Float64bits(r.Number()) == u64)
+	}
+	vAssert("kind-offset", sel > 10 || (r.Type == op && r.Offset == int32(idx) && r.last == len(r.buffer)))
+}
+
+// vAppendOnly is the frame shared by all writers (C05 a, b): old bytes and old headers are untouched; exactly one
+// header is appended iff the 16K block changes, recording where the run starts and the offset in force;
+// last and chunk are updated.
+func vAppendOnly(buf []byte, hdrs []header, last int32, chunk Chunk, idx uint32, write func(b *Buffer)) {
+	vAssume(idx < 1<<31 && last >= 0 && len(buf) < 1<<31)
+	b := vMkBuffer(buf, hdrs, last, chunk)
+	oldBuf := append([]byte(nil), buf...)
+	oldHdrs := append([]header(nil), hdrs...)
+	write(b)
+	vAssert("grows", len(b.buffer) > len(oldBuf))
+	vAssert("bytes-kept", vForall(0, len(oldBuf), func(i int) bool { return b.buffer[i] == oldBuf[i] }))
+	vAssert("state", b.last == int32(idx) && b.chunk == Chunk(idx>>chunkShift))
+	if chunk != Chunk(idx>>chunkShift) {
+		vAssert("header-appended", len(b.chunks) == len(oldHdrs)+1 &&
+			b.chunks[len(oldHdrs)] == header{Chunk: Chunk(idx >> chunkShift), Start: uint32(len(oldBuf)), Value: uint32(last)})
+	} else {
+		vAssert("headers-same-count", len(b.chunks) == len(oldHdrs))
+	}
+	vAssert("headers-kept", vForall(0, len(oldHdrs), func(i int) bool { return b.chunks[i] == oldHdrs[i] }))
+}
+
+//@ lemma props=C05
+func vLemmaAppendOnly(buf []byte, hdrs []header, last int32, chunk Chunk, opIn OpType, idx uint32, sel uint8, u64 uint64, v []byte) {
+	op := opIn & 0x0f
+	vAssume(vSeparate(buf, v))
+	vAppendOnly(buf, hdrs, last, chunk, idx, func(b *Buffer) {
+		switch sel {
+		case 0:
+			b.writeUint16(op, idx, uint16(u64))
+		case 1:
+			b.writeUint32(op, idx, uint32(u64))
+		case 2:
+			b.writeUint64(op, idx, u64)
+		case 3:
+			b.PutOperation(op, idx)
+		default:
+			b.PutBytes(op, idx, v)
+		}
+	})
+}
+
+// IndexAtChunk is the offset inside the 16K block (C01: the position every Apply uses).
+//
+//@ lemma props=C05,C01
+func vLemmaIndexAtChunk(off int32) {
+	vAssume(off >= 0)
+	r := &Reader{Offset: off}
+	vAssert("masks", r.IndexAtChunk() == uint32(off)&(chunkSize-1) && r.IndexAtChunk() < chunkSize)
+	vAssert("chunk-min", r.IndexAtChunk() == uint32(off)-ChunkAt(uint32(off)).Min())
+	vAssert("index", r.Index() == uint32(off))
+}
